@@ -16,3 +16,47 @@ def C02(t0):
         bounds=['all 2^256 byte strings (bytes symbolic; canonical parse by contract)', 'no loop in scope'],
         trusted=[T_RUSTC, T_ARK, 'contract S (square-root-of-ratio, property C09) and W (wrappers) as stated in DESIGN 2.1'],
         assumptions=['field elements are modelled as polynomials over F_q in the input symbols; sign is an uninterpreted predicate with neg(0)=false, neg(-x)=!neg(x) for x!=0'])
+
+def _warm():
+    from . import curve
+    curve.items_for('min'); curve.items_for('ark')
+
+def C03(t0):
+    from . import curve
+    _warm()
+    jobs = []
+    for b in ('min', 'ark'):
+        jobs += [(f'{b} encode algebra', curve.check_encode_algebra, (b,)), (f'{b} encode invariance', curve.check_encode_invariance, (b,))]
+    obs = par.run_groups(jobs)
+    return finish('C03', obs, t0, level='proof',
+        functions=['Element::vartime_compress_to_field (ark_curve/encoding.rs, min_curve/element.rs)', 'sign::Sign::abs', 'fields::fq::ops operator forms reached'],
+        bounds=['all (X,Y,Z,T) symbolic; rescaling factor lam symbolic and nonzero; no loops in scope'],
+        trusted=[T_RUSTC, T_ARK, 'contract S (C09) and lemma L-scale derived from it: sqrt_ratio(1, lam^4 D) and sqrt_ratio(1, D) agree in the flag and differ by the factor +-lam^2 (uses: zeta is a non-square, F_q is a field)',
+                 'injectivity ("unequal elements encode differently") is the Decaf theorem and is not decided'],
+        assumptions=['field elements as polynomials over F_q; sign as an uninterpreted predicate with neg(0)=false, neg(-x)=!neg(x) for x!=0; lam != 0'])
+
+def C07(t0):
+    from . import curve
+    _warm()
+    jobs = [(f'{b} elligator', curve.check_elligator, (b,)) for b in ('min', 'ark')]
+    obs = par.run_groups(jobs)
+    return finish('C07', obs, t0, level='proof',
+        functions=['Element::elligator_map (ark_curve/elligator.rs, min_curve/element.rs)', 'ark_curve::constants::{ONE,TWO,ZETA} initialisers', 'TECurveConfig::COEFF_A/COEFF_D'],
+        bounds=['all r0 (symbolic); no loops in scope'],
+        trusted=[T_RUSTC, T_ARK, 'contract S (C09)', 'equivalence of the optimised map with the unoptimised Elligator 2 map and validity of its image are specification-level theorems'],
+        assumptions=['field elements as polynomials over F_q; sign as an uninterpreted predicate'])
+
+def C04(t0):
+    from . import group
+    _warm()
+    jobs = [('ark operator forms', group.sweep_operator_forms, ('ark', ['src/ark_curve/ops/projective.rs', 'src/ark_curve/ops/affine.rs'])),
+            ('min operator forms', group.sweep_operator_forms, ('min', ['src/min_curve/ops.rs'])),
+            ('ark sums and named methods', group.check_sums_and_named, ('ark',)),
+            ('min group law', group.check_min_group_law, ())]
+    obs = par.run_groups(jobs)
+    return finish('C04', obs, t0, level='proof',
+        functions=['every impl of Add/Sub/Neg/Mul/AddAssign/SubAssign/MulAssign in ark_curve/ops/{projective,affine}.rs and min_curve/ops.rs (enumerated from the MIR)',
+                   'Sum impls (4), negate, double_in_place, zero/default, conversions', 'min_curve Element::{add, double, neg}'],
+        bounds=['operands symbolic (free abelian group / polynomial coordinates); iterator sums over 0..=3 summands (quick) / 0..=5 (thorough)'],
+        trusted=[T_RUSTC, T_ARK + ": ark-ec's complete a=-1 twisted Edwards formulas for the inner points", 'the group law is an abelian group law (association/order independence)'],
+        assumptions=['arkworks inner-point operations denote +, -, scalar action of the curve group'])
